@@ -241,7 +241,7 @@ RAW_DOMAIN = {   # raw_text replacements per token class (C02); in the token's l
     'Link': ['^z'],
     'MetaKey': ['zz:'],
     'InlineComment': [';z', '; zz'],
-    'BlockComment': ['; z', '; z\n; w'],
+    'BlockComment': ['; z', '; z\n; w', ';z', ';; z', ';'],
     'Indent': ['      ', '\t'],
     'Whitespace': ['  ', '\t'],
     'Newline': ['\r\n', '\n'],
